@@ -514,7 +514,7 @@ any name (`SWAP` included) and any label; every measurement has one existing tar
 into an existing bit or nowhere.  No bound on the number of wires or elements.  Classical controls
 of a gate are not part of the model: the renderer never reads them (checked on the source and by
 the correspondence), a classically controlled gate is drawn as the plain gate.
-(`v.supports`: gates on the whole register are admitted iff the tree has `globalBox`, measurements
+(`v.supports`: gates on the whole register are allowed iff the tree has `globalBox`, measurements
 without `classical_store` iff it has `measBox`; `Variant.repaired` supports everything.) -/
 theorem equal_width (v : Variant) (hv : v.spanFix = true) (sty : Style) (c : Circ) (rows : List Str)
     (hc : circValid sty c = true) (hg : ∀ op ∈ c.ops, v.supports op = true)
